@@ -140,7 +140,7 @@ def render(ir: dict, bits) -> tuple[dict, Picker]:
 
 @st.composite
 def cases(draw, tier):
-    prof = docs.profile(max_schemas=4, max_props=4, max_ops=2, max_depth=2, desc=True, security=False, allof=True,
+    prof = docs.profile(max_schemas=4, max_props=4, max_ops=2, max_depth=2, desc=True, security=False, allof=True, affix_names=True,
                         null_in_enum=True)
     ir = draw(docs.doc_ir(prof))
     for op in ir["ops"]:
